@@ -1,5 +1,6 @@
 CONSTANTS
   Dims <- MCDims
+  DimSeq <- MCDimSeq
   MaxHazards = 1
 INIT Init
 NEXT Next
